@@ -580,12 +580,18 @@ func c17FirstError(r *Run) {
 			if err != nil || err2 != nil {
 				return
 			}
-			_, wantErr := ev.Evaluate(l[first])
+			var wantErr error
+			func() {
+				defer func() { recover() }()
+				_, wantErr = ev.Evaluate(l[first])
+			}()
 			for rep := 0; rep < 6; rep++ {
-				res, gotErr := flt.Execute(l)
+				res, gotErr, pan := safeExecute(flt, l)
 				r.Evaluations++
 				c := map[string]interface{}{"expression": e, "elements": n, "failing_positions": at}
 				switch {
+				case pan != "":
+					r.Violate("execute-panics", fmt.Sprintf("first-error|%d", n), c, "Execute panicked: "+pan)
 				case gotErr == nil:
 					r.Violate("element-error-not-returned", fmt.Sprintf("first-error|%d", n), c, "no error although three elements fail")
 				case res != nil:
